@@ -34,6 +34,16 @@ SEEDS = {
  "C13-1": ("C13", 1, "same slip as C12-1, found independently", "timeout > 0, MSB, MSB, poll before the second deadline", ["C13", "C12"], {}, ""),
  "C13-2": ("C13", 2, "poll returns early via `?` for an unpaired LSB and never leaves the pending state", "number, CC 38, poll after the timeout, CC 6", ["C13"], {"C14": "a 14-bit built from the latest controller-6 and -38 bytes satisfies C14 read literally; the clause broken is C13's"}, ""),
  "C14-1": ("C14", 1, "flush on re-selection carries the registered flag of the flushing number byte", "pending data entry MSB, then a number byte of the other kind", ["C14", "C12"], {}, ""),
+ "C15-1": ("C15", 1, "a single 'value pending' flag on the outer polling scanner, cleared when any channel's poll delivers", "two channels with a pending MSB at once; poll one successfully, then poll the other", ["C15"], {}, ""),
+ "C15-2": ("C15", 2, "14-bit CC scanner filters on `status & 0xB0` (wrong mask): system messages act as Control Changes on channel = low nibble", "a system message whose low nibble equals an active channel, between MSB and LSB or with data byte 1 = matching LSB controller", ["C15", "C16"], {}, ""),
+ "C16-1": ("C16", 1, "Control Changes 120-127 reset the 14-bit CC sub-scanner", "pending MSB, then CC 120..127 on the same channel, then the LSB", ["C16", "C08"], {}, "C08 catches it too since non-contributing traffic is now expanded in its fixpoint"),
+ "C16-2": ("C16", 2, "unrelated Control Changes call poll() on the polling scanner", "value pending and timeout elapsed, then an unrelated CC on the channel before any poll", ["C16", "C14"], {}, ""),
+ "C17-1": ("C17", 1, "14-bit scanner reset() loops 0..Channel::MAX (exclusive): channel 15 never reset", "pre-reset MSB on channel 15", ["C17", "C08"], {}, "needs channel 15 to be among the explored channels (it is, in both tiers)"),
+ "C17-2": ("C17", 2, "polling per-channel reset assigns Default to the whole sub-scanner, zeroing the timeout", "scanner created with a non-zero timeout, then reset()", ["C17", "C13"], {}, ""),
+ "C18-1": ("C18", 1, "inc/dec while an MSB is pending collects its results in a Vec", "number, CC 6, CC 96/97 on the polling scanner, observed under a counting allocator in an unoptimised build", ["C18"], {}, "reported with the 4-step trace since allocations are now attributed to the transition"),
+ "C18-2": ("C18", 2, "same slip as C01-1 (quarter-frame reserved bit), found independently: to_structured panics", "status 0xF1 with data byte 0x78..=0x7F", ["C18", "C01"], {}, ""),
+ "C19-1": ("C19", 1, "hand-written TryFrom<u16> for U14 masks with !0x7fff: 16384..=32767 accepted", "serde feature and a raw value with bit 14 set", ["C19", "C04"], {}, ""),
+ "C19-2": ("C19", 2, "deserialisation guard `value <= 127` only on the (7-bit, DataEntry) arm", "is_14_bit=false, data type increment/decrement, value > 127", ["C19"], {}, ""),
  "C14-2": ("C14", 2, "inc/dec while an LSB is pending returns [None, Some(inc/dec)]", "number, CC 38, CC 96/97", ["C14"], {"C12": "an inc/dec after a lone LSB is outside the documented grammar"}, ""),
 }
 
